@@ -46,7 +46,9 @@ class Arms:
         sc = F.crate("postcard_schema")
         self.dmt = [v["name"] for v in sc.adts["postcard_schema::schema::owned::OwnedDataModelType"]["variants"]]
         self.dat = [v["name"] for v in sc.adts["postcard_schema::schema::owned::OwnedData"]["variants"]]
-        eng = sym.Engine(F, inline=inline_policy, max_visits=3, max_paths=20000, max_steps=40000)
+        # the float byte conversions stay visible as calls here: they are tokens of the arm abstraction
+        keep = {k: (lambda *a: NotImplemented) for k in sym.MODELS if k.startswith(("core::f32::", "core::f64::")) and "_bytes" in k}
+        eng = sym.Engine(F, inline=inline_policy, max_visits=3, max_paths=20000, max_steps=40000, models=keep)
         self.paths = [p for p in eng.run(self.fn) if p.status != "infeasible"]
         self.truncated = eng.truncated
         self.arms = {}
